@@ -434,3 +434,79 @@ func VP_C01_marshal_held() {
 	vp.Assert(Unmarshal(b2, &g2) == nil && g2 == v2, "Unmarshal(Marshal(v)) == v")
 	vp.Cover("end")
 }
+
+// the `list` option on every field shape that holds a byte/int/long sequence:
+// []bool, an interface-typed field holding a slice, a slice behind two
+// pointers, a plain slice - each is written as a List, not as a typed array.
+func VP_C01_list_option() {
+	type T struct {
+		B []bool    `nbt:"b,list"`
+		I any       `nbt:"i,list"`
+		P **[]int64 `nbt:"p,list"`
+		N []int32   `nbt:"n,list"`
+		Y [2]byte   `nbt:"y,list"`
+	}
+	b0, b1 := vp.Bool(), vp.Bool()
+	i0, l0, n0 := vp.Int32(), vp.Int64(), vp.Int32()
+	y := vp.Bytes(2)
+	l := []int64{l0}
+	pl := &l
+	v := T{B: []bool{b0, b1}, I: []int32{i0}, P: &pl, N: []int32{n0}, Y: [2]byte{y[0], y[1]}}
+	bb := func(x bool) byte {
+		if x {
+			return 1
+		}
+		return 0
+	}
+	ref := []byte{TagCompound}
+	ref = append(ref, append(vpTagHdr(TagList, "b"), TagByte, 0, 0, 0, 2, bb(b0), bb(b1))...)
+	ref = append(ref, append(vpTagHdr(TagList, "i"), append([]byte{TagInt, 0, 0, 0, 1}, vpBE(uint64(uint32(i0)), 4)...)...)...)
+	ref = append(ref, append(vpTagHdr(TagList, "p"), append([]byte{TagLong, 0, 0, 0, 1}, vpBE(uint64(l0), 8)...)...)...)
+	ref = append(ref, append(vpTagHdr(TagList, "n"), append([]byte{TagInt, 0, 0, 0, 1}, vpBE(uint64(uint32(n0)), 4)...)...)...)
+	ref = append(ref, append(vpTagHdr(TagList, "y"), TagByte, 0, 0, 0, 2, y[0], y[1])...)
+	ref = append(ref, 0)
+	var w vpBuf
+	e := NewEncoder(&w)
+	e.NetworkFormat(true)
+	vp.Assert(e.Encode(v, "") == nil, "Encode err==nil")
+	vp.Assert(string(w.b) == string(ref), "the list option selects TagList for every sequence field shape")
+	vp.Cover("end")
+}
+
+// many skipped values in one document: a list of 600 compounds, each with two
+// fields the target does not declare (a list of doubles and an int array),
+// decoded into a struct slice; nothing accumulates across skipped values.
+func VP_C01_many_skips() {
+	const n = 600
+	vp.SizeBound(64*n + 64)
+	vp.Unwind(n + 64)
+	vp.MaxSteps(900000000)
+	doc := append([]byte{TagList, TagCompound}, vpBE(n, 4)...)
+	x0, xl := vp.Int32(), vp.Int32()
+	for i := 0; i < n; i++ {
+		k := int32(i)
+		if i == 0 {
+			k = x0
+		} else if i == n-1 {
+			k = xl
+		}
+		doc = append(doc, vpTagHdr(TagList, "motion")...)
+		doc = append(doc, TagDouble, 0, 0, 0, 2, 0, 0, 0, 0, 0, 0, 0, 1, 0, 0, 0, 0, 0, 0, 0, 2)
+		doc = append(doc, vpTagHdr(TagInt, "k")...)
+		doc = append(doc, vpBE(uint64(uint32(k)), 4)...)
+		doc = append(doc, vpTagHdr(TagIntArray, "u")...)
+		doc = append(doc, 0, 0, 0, 1, 0, 0, 0, 9)
+		doc = append(doc, 0)
+	}
+	var g []struct {
+		K int32 `nbt:"k"`
+	}
+	r := &vpByteReader{b: append(append([]byte{}, doc...), 0x42)}
+	d := NewDecoder(r)
+	d.NetworkFormat(true)
+	_, err := d.Decode(&g)
+	vp.Assert(err == nil, "decodes")
+	vp.Assert(r.pos == len(doc), "decoding consumes exactly the document")
+	vp.Assert(len(g) == n && g[0].K == x0 && g[n-1].K == xl && g[300].K == 300, "values after many skipped fields")
+	vp.Cover("end")
+}
